@@ -59,7 +59,12 @@ def _snapshot(f):
 
 
 def _patch(owner, name, make):
-    orig = owner.__dict__[name] if isinstance(owner, type) else getattr(owner, name)
+    try:
+        orig = owner.__dict__[name] if isinstance(owner, type) else getattr(owner, name)
+    except (KeyError, AttributeError):
+        # the method moved (base class, renamed): this monitor stays off, the property checks do not depend on it
+        counters['monitor not installed: %s.%s' % (getattr(owner, '__name__', owner), name)] += 1
+        return
     raw = orig.__func__ if isinstance(orig, (classmethod, staticmethod)) else orig
     new = make(raw)
     functools.update_wrapper(new, raw)
